@@ -99,7 +99,7 @@ def solve_mod_q(cols, target):
     return x
 
 
-def ob_square_cyclotomic():
+def ob_square_cyclotomic(alias=False):
     P = prog()
     H = TowerHarness(P, 0, (0, 1, 2), 120000)
     T, tm, I = H.T, H.tm, H.I
@@ -108,7 +108,7 @@ def ob_square_cyclotomic():
 
     def make_args():
         o, _ = tm.new_input("a", 3, a)
-        oo = tm.new_output("out", 3)
+        oo = o if alias else tm.new_output("out", 3)
         return [Ptr(oo, 0), Ptr(o, 0)], (lambda: tm.read(Ptr(oo, 0), 3))
     res = H.run(fname, make_args)
     R = H.ring
